@@ -105,7 +105,7 @@ def execute(item):
 
 
 KQ = ("NL", "CE", "J", "PPO")
-KT = KQ + ("W3", "W0", "CO", "BL", "WT", "NLI", "CD", "CEE", "UP", "LO")
+KT = KQ + ('W3', 'WT', 'CO', 'UP')
 
 
 def items(tier):
